@@ -283,17 +283,3 @@ func c09PrecheckedOwn(c *Ctx, fn *ssa.Function) bool {
 	return len(c.Calls(fn, true, nameIs("(*db.SyncData).GetSyncCas"))) > 0 || len(c.Calls(fn, true, sgWriteFns)) > 0
 }
 
-func c09R3(c *Ctx, r *Report) {
-	r.Rule("C09-R3", "E3 (placeholder until the sibling table is armed)", "the three own-write predicates exist and each consults CAS, body CRC (or reports ambiguity), user-xattr hash and CV", 3)
-	for _, name := range []string{"(*db.SyncData).IsSGWrite", "(*db.SyncData).IsSGWriteXattrOnly", "(*db.Document).IsSGWrite"} {
-		fn := c.Func(name)
-		if fn == nil {
-			r.Fail("C09-R3", "anchor "+name, "-", "function not found")
-			continue
-		}
-		hasX := len(c.Calls(fn, false, nameIs("db.HasUserXattrChanged"))) > 0 || len(c.Calls(fn, false, nameIs("(*db.SyncData).IsSGWrite"))) > 0
-		hasCas := len(c.Calls(fn, false, nameIs("(*db.SyncData).GetSyncCas"))) > 0 || len(c.Calls(fn, false, nameIs("(*db.SyncData).IsSGWrite"))) > 0
-		hasCV := len(c.Calls(fn, false, nameIs("(*db.SyncData).CVEqual"))) > 0
-		r.Check("C09-R3", "fn="+name+" consults=cas,user-xattr,cv", c.Pos(fn.Pos()), hasX && hasCas && hasCV, "all three own-write witnesses consulted", fmt.Sprintf("own-write predicate no longer consults all witnesses (cas=%v user-xattr=%v cv=%v): this sibling would disagree with the others", hasCas, hasX, hasCV))
-	}
-}
